@@ -911,7 +911,7 @@ fn main() {
             rep.note(format!("allocator self-test failed: {:?} {:?} {:?}", d0, d1, d2));
         }
     }
-    let calls = cli.t(2_000u64, 1_000_000u64);
+    let calls = cli.t(2_000u64, 4_000_000u64);
     let mut names: Vec<&'static str>;
     {
         let mut cat = Cat { rep: &mut rep, calls, names: Vec::new() };
@@ -925,7 +925,7 @@ fn main() {
         interpolators(&mut cat);
         sources(&mut cat);
         adaptors(&mut cat, cli.seed, cli.t(200, 50_000));
-        graphs(&mut cat, cli.seed, cli.t(60, 20_000));
+        graphs(&mut cat, cli.seed, cli.t(60, 60_000));
         names = std::mem::take(&mut cat.names);
     }
     rep.oblige("catalogue_entries_measured", names.len() as u64);
